@@ -59,10 +59,11 @@ C13ok(c) == /\ (c.naming = "same" => c.neq = c.nunk)
             /\ (c.lkind = "ode" => ~c.bnd)
             /\ (c.pbatch => c.obspat = "none" /\ ~c.bnd)
 (* loss terms on separable networks (C11, and the SPINN side of C04 / C05) *)
-C11L == [kind : {"loss_struct"}, family : {"C11L"}, lkind : {"statio", "nonstatio"}, dim : 1..2, term : {"ic", "norm", "dirichlet", "neumann"},
+C11L == [kind : {"loss_struct"}, family : {"C11L"}, lkind : {"statio", "nonstatio"}, dim : 1..2, term : {"ic", "norm", "dirichlet", "neumann", "dyn"},
          b : {1, 2, 4}, R : 1..2, M : 1..2, gzero : BOOLEAN]
 C11Lok(c) == /\ (c.term = "ic" => c.lkind = "nonstatio" /\ ~c.gzero)
              /\ (c.term = "norm" => c.M = 1 /\ ~c.gzero)
+             /\ (c.term = "dyn" => ~c.gzero)
              /\ (c.term = "neumann" => c.R = 1 \/ c.M = 1)       \* Neumann on one selected component of a 1- or 2-output network
              /\ (c.dim = 2 /\ c.lkind = "nonstatio" => c.b <= 2)
 Space == CASE Family = "C03" -> {c \in C03 : C03ok(c)}
